@@ -261,8 +261,40 @@ func c12Explore(src *choice.Src) *core.Result {
 	zipFile := filepath.Join(sb.root, "archive.zip")
 	os.WriteFile(zipFile, archive, 0o644)
 	target := filepath.Join(level, "target")
-	targetState := []string{"missing", "empty", "non-empty", "file", "parent-missing"}[src.Weighted(6, 3, 2, 1, 1)]
+	targetState := []string{"missing", "empty", "non-empty", "file", "parent-missing", "non-empty-unlistable"}[src.Weighted(6, 3, 2, 1, 1, 2)]
 	switch targetState {
+	case "non-empty-unlistable":
+		// The target exists and is not empty, but listing it fails (a directory without read permission;
+		// the simulator answers Unzip's listing itself because the checks run as root, whom permission
+		// bits do not stop). One of the things in it is a link to a directory outside the target, named
+		// like the first path element of an archive entry.
+		os.Mkdir(target, 0o755)
+		os.WriteFile(filepath.Join(target, "already-here.txt"), []byte("x"), 0o644)
+		outside := filepath.Join(level, "outside-the-target")
+		os.Mkdir(outside, 0o755)
+		link := "sub"
+		if zr, err := zip.NewReader(bytes.NewReader(archive), int64(len(archive))); err == nil {
+			var cands []string
+			for _, f := range zr.File {
+				rel := strings.TrimPrefix(f.Name, right)
+				if i := strings.Index(rel, "/"); i > 0 && rel != f.Name && !strings.ContainsAny(rel[:i], "\\\x00") {
+					cands = append(cands, rel[:i])
+				}
+			}
+			if len(cands) > 0 {
+				link = cands[src.Intn(len(cands))]
+			}
+		}
+		os.Symlink(outside, filepath.Join(target, link))
+		unlistable := target
+		modzip.SimReadDir = func(dir string) ([]os.DirEntry, error) {
+			if dir == unlistable {
+				return nil, &os.PathError{Op: "open", Path: dir, Err: os.ErrPermission}
+			}
+			return os.ReadDir(dir)
+		}
+		defer func() { modzip.SimReadDir = nil }()
+		res.Faults["target-cannot-be-listed"]++
 	case "empty":
 		os.Mkdir(target, 0o755)
 	case "non-empty":
@@ -366,7 +398,7 @@ func c12Explore(src *choice.Src) *core.Result {
 		return c12Done(res, mod.m.String(), source, targetState, entries, archive)
 	}
 	switch targetState {
-	case "non-empty", "file":
+	case "non-empty", "file", "non-empty-unlistable":
 		if uerr == nil {
 			res.Fail("C12", "target-must-be-empty", "extraction into a non-empty target or a file succeeded", "target state %s", targetState)
 		}
